@@ -16,19 +16,19 @@ CHECKS = {
    note="Type and constant inventory comes from go/types on types.go; the regeneration driver is added by build overlay (nothing written to /repo).",
    technique="exhaustive input enumeration + regeneration (translation) comparison", ref="3 C20"),
  "C08": dict(level="model_checking",
-   text="Explicit exploration of call histories: every sequence up to the bound over a 30-call pool chosen to collide on package-level state (incl. near-twin inputs that differ only in a detail a lossy cache key would conflate), each history executed in its own fresh process; every position must return what the same call returns when made first in a fresh process, and solo calls are repeated across processes (Encode determinism). Behavioural states (vectors of one-step futures) are counted: a pure implementation has exactly one.",
+   text="Explicit exploration of call histories: every sequence up to the bound over a 32-call pool chosen to collide on package-level state (incl. near-twin inputs that differ only in a detail a lossy cache key would conflate), each history executed in its own fresh process; every position must return what the same call returns when made first in a fresh process, and solo calls are repeated across processes (Encode determinism). Behavioural states (vectors of one-step futures) are counted: a pure implementation has exactly one.",
    note="Fresh-process baseline means no in-process reset has to be trusted. The package-level distance accumulator (listed finding) is shadowed and attributed exactly. Map-iteration nondeterminism is observed through repeated fresh-process runs, not enumerated.",
    technique="explicit-state exploration of call histories with a fresh-process differential oracle", ref="3 C08"),
  "C09": dict(level="model_checking",
-   text="Stateless schedule exploration on the real code under a cooperative scheduler with iterative preemption bounding. Scheduling points: (1) every Read/Write on harness-owned readers/writers (reads cut at record boundaries; the decoding calls again at byte granularity) for all unordered pairs of the 30 pool calls plus 3-thread and 2-calls-per-thread scenarios; (2) every access to a mutable package-level variable, through a build overlay generated from the current tree by tools in harness/cmd/vinstr (nothing written to /repo), each scenario in a fresh process, with an access-conflict oracle (variable written and touched by both goroutines, no locks in the package). Each thread must return its solo result under every schedule. A separate free-running pass of the same bodies under the Go race detector classifies every report by function signature.",
+   text="Stateless schedule exploration on the real code under a cooperative scheduler with iterative preemption bounding. Scheduling points: (1) every Read/Write on harness-owned readers/writers (reads cut at record boundaries; the decoding calls again at byte granularity) for all unordered pairs of the 32 pool calls plus 3-thread and 2-calls-per-thread scenarios; (2) every access to a mutable package-level variable, through a build overlay generated from the current tree by tools in harness/cmd/vinstr (nothing written to /repo), each scenario in a fresh process, with an access-conflict oracle (variable written and touched by both goroutines, no locks in the package). Each thread must return its solo result under every schedule. A separate free-running pass of the same bodies under the Go race detector classifies every report by function signature.",
    note="Interleavings are sequentially consistent at the granularity of the scheduling points; weak-memory effects are only sampled by the race-detector pass. Preemption bound completed: 2 (quick) / 4 (thorough) for pairs. The access-level pass leaves out the calls that hit the listed accumulator finding; if the package starts using locks/atomics the access-conflict oracle stands down (never a false alarm) and the race pass remains.",
    technique="stateless model checking with a controlled scheduler (environment-call and instrumented-access scheduling points), preemption bounding + separate race-detector pass", ref="3 C09"),
  "C05": dict(level="exploration",
-   text="Bounded exhaustive enumeration of Files built through the public API (17 file types x every container member x field subsets incl. union-definition mixes x boundary values x byte order x header form); every output is parsed by an independent strict FIT grammar parser and every wire value compared with a reference encoding of the Go value; File header/CRC fields checked after the call, also when they held stale values before it, and across encode / grow / encode / shrink / encode of the same File object; the same bytes whatever io.Writer receives them (7 writer kinds).",
+   text="Bounded exhaustive enumeration of Files built through the public API (17 file types x every container member x field subsets incl. union-definition mixes x boundary values x byte order x header form); every output is parsed by an independent strict FIT grammar parser and every wire value compared with a reference encoding of the Go value; File header/CRC fields checked after the call, also when they held stale values before it, and across encode / grow / encode / shrink / encode of the same File object; the same bytes whatever io.Writer receives them (7 writer kinds); strings that are not valid UTF-8 or are cut inside a wide rune (refused, or written well-formed).",
    note="Reference encoder and parser live in harness/fitmodel and harness/props/filegen.go. In-domain Files start from the all-invalid file_id (NewFile leaves Go zero values, which are outside the representable domain).",
    technique="bounded exhaustive input enumeration with an independent grammar parser as oracle", ref="3 C05"),
  "C06": dict(level="exploration",
-   text="The same in-domain File family (plus all ordered field pairs per message in the thorough tier and local timestamps 18 zone offsets away from a UTC reference in the same or an earlier message, incl. offsets that are not whole minutes; several local timestamps in one real daylight-saving zone across its transitions; every ordered triple of string values per string field) is encoded and decoded back; per-member counts, order and every field are compared under exactly the four relaxations the property states.",
+   text="The same in-domain File family (plus all ordered field pairs per message in the thorough tier and local timestamps 18 zone offsets away from a UTC reference in the same or an earlier message, incl. offsets that are not whole minutes; several local timestamps in one real daylight-saving zone across its transitions; every ordered triple of string values per string field; strings with U+FFFD; arrays with an invalid element inside) is encoded and decoded back; per-member counts, order and every field are compared under exactly the four relaxations the property states.",
    note="Component destinations are predicted by the C18 reference expansion; accumulated destinations are excluded when their source is set (C18 findings).",
    technique="bounded exhaustive input enumeration, round-trip oracle with stated relaxations", ref="3 C06"),
  "C07": dict(level="exploration",
@@ -44,11 +44,11 @@ CHECKS = {
    note="Alphabet excludes reference value 0, 32-bit overflow of the second counter and system-time references interacting with local time (property silent).",
    technique="explicit enumeration of record sequences against a reference state machine", ref="3 C12"),
  "C13": dict(level="model_checking",
-   text="The definition-slot machine is explored two ways on the real decoder: all words up to the bound over define/data/compressed-data operations, and a breadth-first search over all 3125 reachable slot states with every one-step extension followed by a probe of every slot; chained files must not inherit slots. Shared 'mix' family: all words up to length 3 (quick) / 4 (thorough) over 12 definition shapes x 2 local types x normal/compressed data records (both byte orders, timestamp first/middle/absent, zero-field and developer-field definitions, unknown messages and fields, signed/array/local-time fields, unhosted message, second file_id), each decoded and compared message by message and field by field with a complete reference decoder (parser + value model + timestamp machine + router).",
+   text="The definition-slot machine is explored two ways on the real decoder: all words up to the bound over define/data/compressed-data operations, and a breadth-first search over all 3125 reachable slot states with every one-step extension followed by a probe of every slot; chained files must not inherit slots; jumbo records (up to 130 050 bytes) on a neighbouring slot. Shared 'mix' family: all words up to length 3 (quick) / 4 (thorough) over 12 definition shapes x 2 local types x normal/compressed data records (both byte orders, timestamp first/middle/absent, zero-field and developer-field definitions, unknown messages and fields, signed/array/local-time fields, unhosted message, second file_id), each decoded and compared message by message and field by field with a complete reference decoder (parser + value model + timestamp machine + router).",
    note="Five local types x four definition variants in the words; all 16 local types at depth 2. Values are checked with the C02 model.",
    technique="explicit-state BFS over model slot states + exhaustive bounded words, each trace replayed on the decoder", ref="3 C13"),
  "C16": dict(level="model_checking",
-   text="All words up to the bound over 12 record groups x every truncation offset x all 8 option combinations; content, error and bytes consumed must equal the option-free run and the unknown-item lists must equal the model counters (bounded by completed / in-progress records on failure). Whole streams also with the options passed in every order and repeated (19 configurations). A generic form of the same oracle (counters derived from the independent parser, content from the reference decoder) runs over the mix words, the shared streams and every device file of the corpus under all option configurations; DecodeChained over ordered pairs of mix-family files: per-member counters.",
+   text="All words up to the bound over 12 record groups x every truncation offset x all 8 option combinations; content, error and bytes consumed must equal the option-free run and the unknown-item lists must equal the model counters (bounded by completed / in-progress records on failure). Whole streams also with the options passed in every order and repeated (19 configurations). A generic form of the same oracle (counters derived from the independent parser, content from the reference decoder) runs over the mix words, the shared streams and every device file of the corpus under all option configurations; DecodeChained over ordered pairs of mix-family files: per-member counters; all 16 x 16 local-type pairs.",
    note="Logger is a counting sink that formats its arguments (to execute the debug branches).",
    technique="explicit enumeration of record sequences x crash points x configurations against reference counters", ref="3 C16"),
  "C18": dict(level="model_checking",
@@ -60,7 +60,7 @@ CHECKS = {
    note="Model = harness/props/model.go (written from the FIT base-type rules). Value alphabets are boundary sets, not all 2^32 payloads. Messages that no file container exposes are not observable and not covered.",
    technique="bounded exhaustive input enumeration against a reference value model", ref="3 C02"),
  "C04": dict(level="fault_enumeration",
-   text="Exhaustive fault enumeration: every burst of <=16 bits at every bit position of each base file (2^15 patterns per position) must be rejected by both Decode and CheckIntegrity; all 65536 stored header CRC values x header variants must get the same verdict from all header-checking APIs as the reference CRC gives; verdicts on valid and corrupted files must not depend on the reader's chunking (8 chunkings).",
+   text="Exhaustive fault enumeration: every burst of <=16 bits at every bit position of each base file (2^15 patterns per position) must be rejected by both Decode and CheckIntegrity; all 65536 stored header CRC values x header variants must get the same verdict from all header-checking APIs as the reference CRC gives; verdicts on valid and corrupted files must not depend on the reader's chunking (8 chunkings); Encode outputs above 64 and 128 KiB.",
    note="Base files are small (25-50 bytes) so that the burst space is complete; longer files in the thorough tier. Reference = bitwise CRC-16/ARC.",
    technique="exhaustive fault (bit-burst) enumeration + exhaustive header CRC value enumeration across APIs", ref="3 C04"),
  "C10": dict(level="model_checking",
@@ -68,11 +68,11 @@ CHECKS = {
    note="Menu of reader answers is finite (full/1/half/len-1/empty<=2/data+EOF). Bound 2 completed; all 2^24 cut sets in the thorough tier.",
    technique="deviation-bounded exhaustive exploration of environment (Read-answer) schedules on the real decoder", ref="3 C10"),
  "C11": dict(level="fault_enumeration",
-   text="Every cut offset and every read-fault offset (with/without data in the failing call) of every stream, through all six entry points and two read modes, against a frame model that says when an error is mandatory and which messages must be present in the partial File; the decoding calls bare and with decode options; streams whose trailing CRC has a zero byte or is 0x0000.",
+   text="Every cut offset and every read-fault offset (with/without data in the failing call) of every stream, through all six entry points and two read modes, against a frame model that says when an error is mandatory and which messages must be present in the partial File; the decoding calls bare and with decode options; streams whose trailing CRC has a zero byte or is 0x0000; 200-byte fields across the read-buffer boundary, first and last in the record.",
    note="Streams are built by the reference builder, which supplies the record boundaries for the partial-content oracle.",
    technique="exhaustive crash-point (cut) and fault-offset enumeration against a frame model", ref="3 C11"),
  "C01": dict(level="exploration",
-   text="Bounded exhaustive input-shape exploration of the six decoding entry points under recover and a hang watchdog: the full single-field definition space the property names (message x field number x base-type byte x size x byte order; quick tier restricts field numbers and unknown base types as stated in evidence), header space, record-header space with every cut, and the corpus with cuts; the decoding calls are made bare and with decode options (all, each alone), which register deferred work before the header is read; headers that lie about the data size (every declared size on streams with long fields, under several read chunkings); a local timestamp at every whole-second zone offset within +-15 h. Totality is a safety property over inputs, so exhaustive enumeration of the structured families is the strongest decision available short of proof.",
+   text="Bounded exhaustive input-shape exploration of the six decoding entry points under recover and a hang watchdog: the full single-field definition space the property names (message x field number x base-type byte x size x byte order; quick tier restricts field numbers and unknown base types as stated in evidence), header space, record-header space with every cut, and the corpus with cuts; the decoding calls are made bare and with decode options (all, each alone), which register deferred work before the header is read; headers that lie about the data size (every declared size on streams with long fields, under several read chunkings); a local timestamp at every whole-second zone offset within +-15 h; every record-header pair before the first file_id data record; every string field filled with all words over the UTF-8 byte classes. Totality is a safety property over inputs, so exhaustive enumeration of the structured families is the strongest decision available short of proof.",
    note="Assumes: readers that never make progress are out of scope; arbitrary unstructured garbage is not enumerated. Panics are caught with recover, hangs with a 30 s watchdog.",
    technique="bounded exhaustive input enumeration on the real decoder (definition / header / record-header / cut spaces)", ref="3 C01"),
  "C15": dict(level="exploration",
@@ -80,7 +80,7 @@ CHECKS = {
    note="Trusted: verif-tagged read-only exports mirror the tables; reference mapping base type -> Go kind / invalid value is written from the FIT base-type table.",
    technique="exhaustive configuration enumeration of the profile tables with reflection + decode/encode confirmation", ref="3 C15"),
  "C14": dict(level="model_checking",
-   text="Complete explicit-state exploration of the checksum's transition system on the real code: all 65536 register states x 256 bytes against a bitwise CRC-16/ARC, plus Reset/residue from every state, all write partitions of short and long strings, io.Copy schedules, first-use histories (each entry point as the first call a fresh process makes into the package, and ordered pairs of them) and every start alignment 0..16 of the data inside a larger buffer. The state space is finite and fully enumerated, so within the stated reference this is a complete decision.",
+   text="Complete explicit-state exploration of the checksum's transition system on the real code: all 65536 register states x 256 bytes against a bitwise CRC-16/ARC, plus Reset/residue from every state, all write partitions of short and long strings, io.Copy schedules, first-use histories (each entry point as the first call a fresh process makes into the package, and ordered pairs of them) every start alignment 0..16 of the data inside a larger buffer, data followed by its own checksum and zero padding, and histories that go through package fit first. The state space is finite and fully enumerated, so within the stated reference this is a complete decision.",
    note="Trusted: the 10-line bitwise reference CRC; Go runtime. States are reached through the public New().Write only.",
    technique="explicit-state enumeration of all (state,byte) transitions against a reference model", ref="3 C14"),
  "C17": dict(level="exploration",
